@@ -846,9 +846,156 @@ def translate():
     return {'Gen/C20Tables.v': TAB.translate()}
 
 
+
+# --------------------------------------------------------------------- derived spaces
+def measure_dvariants():
+    import odl
+    dv = {}
+    dv['astype_num_keeps_w'] = odl.rn(2, weighting=2.0).astype(int).weighting.const == 2.0
+    ps = odl.ProductSpace(odl.rn(2), 3, weighting=2.0)
+    dv['ps_astype_keeps_w'] = ps.astype('float32').weighting.const == 2.0
+    dv['ps_getitem_keeps_w'] = ps[0:2].weighting.const == 2.0
+    return dv
+
+
+def coq_dvariants(dv):
+    return ('{| dv_astype_num_keeps_w := %s; dv_ps_astype_keeps_w := %s; dv_ps_getitem_keeps_w := %s |}'
+            % (C.b(dv['astype_num_keeps_w']), C.b(dv['ps_astype_keeps_w']), C.b(dv['ps_getitem_keeps_w'])))
+
+
+def oz(x):
+    return 'None' if x is None else '(Some %s)' % zl(x)
+
+
+def coq_slice(sl):
+    return '{| sl_start := %s; sl_stop := %s; sl_step := %s |}' % (oz(sl.start), oz(sl.stop), oz(sl.step))
+
+
+def coq_idx1(i):
+    return '(XSlice %s)' % coq_slice(i) if isinstance(i, slice) else '(XInt %s)' % zl(i)
+
+
+def coq_pidx(i):
+    if isinstance(i, slice):
+        return '(PSlice %s)' % coq_slice(i)
+    if isinstance(i, list):
+        return '(PList %s)' % zs(i)
+    if isinstance(i, tuple):
+        return '(PTuple %s)' % C.lst([coq_idx1(j) for j in i])
+    return '(PInt %s)' % zl(i)
+
+
+def coq_aidx(i):
+    if isinstance(i, slice):
+        return '(ASlice %s)' % coq_slice(i)
+    if isinstance(i, list):
+        return '(AList %s)' % zs(i)
+    return '(AInt %s)' % zl(i)
+
+
+def gen_slice(rng, n):
+    def e():
+        return rng.choice([None, None, 0, 1, 2, -1, -2, n, n + 1, -n - 1, 3])
+    return slice(e(), e(), rng.choice([None, None, 1, 2, -1, -2, 3]))
+
+
+def gen_int_index(rng, n):
+    return rng.choice([0, 0, 1, -1, n - 1, n, -n, -n - 1, 2])
+
+
+def gen_pidx(rng, n):
+    r = rng.random()
+    if r < 0.25:
+        return gen_int_index(rng, n)
+    if r < 0.5:
+        return gen_slice(rng, n)
+    if r < 0.65:
+        return [gen_int_index(rng, n) if rng.random() < 0.2 else rng.randrange(-n, n) if n else 0
+                for _ in range(rng.choice([0, 1, 2, 3]))]
+    return tuple((gen_slice(rng, n) if rng.random() < 0.45 else gen_int_index(rng, n))
+                 for _ in range(rng.choice([0, 1, 2, 2, 3])))
+
+
+def obs_res(f, ctx):
+    try:
+        r = f()
+    except ValueError:
+        return 'ErrValue'
+    except IndexError:
+        return 'ErrIndex'
+    except TypeError:
+        return 'ErrType'
+    return '(Ok %s)' % coq_obj(describe(r, ctx))
+
+
+def gen_nested_prod(rng):
+    """product spaces whose components are themselves product spaces (tuple indexing)"""
+    fld = rng.choice(['real', 'complex'])
+    inner = [gen_prod(rng, 1, fld) for _ in range(rng.choice([1, 2, 3]))]
+    if rng.random() < 0.5:
+        inner = [inner[0]] * len(inner)
+    if rng.random() < 0.3:
+        inner.append(gen_space(rng, 0, fld))
+    w = gen_w(rng, kind='KPs', allow_array=False)
+    return ('prod', tuple(inner), w, fld)
+
+
+def derived_cases(rng, tier, dv):
+    cs = C.CaseSet('derived', ['C20.Syntax', 'C20.Model', 'C20.Derived', 'C20.Corr'], 'checkD', 'caseD')
+    n = 500 if tier == 'quick' else 3000
+    ctx = Ctx()
+    dvs = coq_dvariants(dv)
+    alldt = list(DTYPES)
+    for i in range(n):
+        r = rng.random()
+        S = gen_nested_prod(rng) if r < 0.25 else gen_prod(rng, 2) if r < 0.5 else gen_space(rng, 2)
+        try:
+            oS = build(S, ctx)
+        except Exception:
+            continue
+        r = rng.random()
+        if S[0] == 'prod' and r < 0.6:
+            idx = gen_pidx(rng, len(S[1]))
+            op, f = '(DGetitem %s)' % coq_pidx(idx), (lambda: oS[idx])
+            what = ('getitem', repr(idx))
+        elif S[0] == 'tensor' and r < 0.4:
+            nd = len(S[1][0])
+            k = rng.random()
+            idx = (gen_int_index(rng, nd) if k < 0.4 else gen_slice(rng, nd) if k < 0.7 else
+                   [rng.randrange(-nd, nd) if nd else 0 for _ in range(rng.choice([0, 1, 2, 3]))])
+            op, f = '(DByaxis %s)' % coq_aidx(idx), (lambda: oS.byaxis[idx])
+            what = ('byaxis', repr(idx))
+        elif r < 0.75:
+            dt = rng.choice(alldt + ['float64', 'float32', 'complex128', 'int64'])
+            npdt = {'U': 'U1', 'O': object}.get(dt, dt)
+            op, f = '(DAstype %s)' % DTYPES[dt], (lambda: oS.astype(npdt))
+            what = ('astype', dt)
+        elif r < 0.88:
+            op, f = 'DReal', (lambda: oS.real_space)
+            what = ('real_space',)
+        else:
+            op, f = 'DComplex', (lambda: oS.complex_space)
+            what = ('complex_space',)
+        try:
+            out = obs_res(f, ctx)
+        except Exception as e:
+            out = 'ErrType'   # anything else shows up as a mismatch
+            what = what + ('unexpected %s' % type(e).__name__,)
+        term = '{| d_dv := %s; d_a := %s; d_op := %s; d_out := %s |}' % (dvs, coq_obj(S), op, out)
+        cs.add(term, {'S': repr(S)[:400], 'op': what, 'out': out[:200]}, (repr(S), what))
+    return cs
+
+
+def variant_cases(v):
+    cs = C.CaseSet('variants', ['C20.Syntax', 'C20.Model', 'C20.Corr'], 'checkV', 'caseV')
+    cs.add('{| cv_v := %s |}' % coq_variants(v), {'variants': v}, None)
+    return cs
+
+
 def correspondence(rng, tier):
     v = measure_variants()
-    return [eq_cases(rng, tier, v), in_cases(rng, tier, v)]
+    dv = measure_dvariants()
+    return [eq_cases(rng, tier, v), in_cases(rng, tier, v), derived_cases(rng, tier, dv), variant_cases(v)]
 
 
 def probes(rng, tier):
